@@ -939,7 +939,7 @@ struct VSys {
             } else if (act == "+=R1" || act == "+=move(R1)") {
                 const bool mv = act == "+=move(R1)";
                 if (M.k == MV::O && m1.k == MV::O) {
-                    m_merge_obj(M, m_copy(m1));
+                    m_merge_obj(M, mv ? m1 : m_copy(m1)); // moved members keep their removed slots, copied ones are compacted
                 } else {
                     m_append(M, mv ? m1 : m_copy(m1));
                 }
@@ -963,11 +963,11 @@ struct VSys {
                 if (M.k == MV::A && m1.k == MV::A) {
                     for (auto &e : m1.items) {
                         if (e.k != MV::U) {
-                            M.items.push_back(m_copy(e));
+                            M.items.push_back(mv ? e : m_copy(e)); // a moved element keeps its removed slots
                         }
                     }
                 } else if (M.k == MV::O && m1.k == MV::O) {
-                    m_merge_obj(M, m_copy(m1));
+                    m_merge_obj(M, mv ? m1 : m_copy(m1));
                 }
                 if (mv) {
                     X.Merge(std::move(*R1));
